@@ -6,7 +6,7 @@ from lib.coqterm import cbool, cN, cZ, cbytes, clist, copt, cpair
 
 ID = "C44"
 QUICK_N = 1200
-THOROUGH_N = 30000
+THOROUGH_N = 9000
 SHARD = 100
 COQ_PRELUDE = "From MV Require Import Model.OptManager.\n"
 RULE = ("80% histories of 4-14 calls on one real OptManager over a universe of 6 option names and 7 typespecs "
@@ -677,9 +677,18 @@ def oracle_hist(case, obs):
 
 
 def _nel_fold(s):
-    """what YAML line folding does to NEL (U+0085) runs: one break -> a space, n breaks -> n-1 newlines"""
+    """what the YAML loader's line folding does to a run of the break characters NEL / LS / PS that the emitter
+    wrote raw: a leading NEL is a plain line break (folded to a space when alone, dropped when more breaks follow),
+    every further NEL becomes a newline; LS and PS are kept"""
     import re
-    return re.sub("\x85+", lambda m: " " if len(m.group()) == 1 else "\n" * (len(m.group()) - 1), s)
+
+    def fold(m):
+        run = m.group()
+        rest = "".join("\n" if c == "\x85" else c for c in run[1:])
+        if run[0] != "\x85":
+            return run[0] + rest
+        return rest or " "
+    return re.sub("[\x85\u2028\u2029]+", fold, s)
 
 
 def _spaces_inserted(a, b):
